@@ -296,11 +296,12 @@ Section MFiles.
   Variables (lg : list (nat * fscall)) (ft : option (nat * nat)).
 
   Theorem refine_write_file (s : gmap (list (list N)) memfile) hs p data : wf s ->
+    (Z.of_nat (length data) <= i64_max)%Z ->
     exists s' hs' r, run bhandler (write_file mv p data) (mstore s hs lg ft) = (mstore s' hs' lg ft, r) /\
       abs s' = fst (spec_write_file (abs s) p data) /\
       class_of r = snd (spec_write_file (abs s) p data) /\ wf s'.
   Proof.
-    intros Hwf.
+    intros Hwf Hfit.
     destruct (refine_create_file lg ft s hs p Hwf) as (s1 & hs1 & r1 & Hrun & Habs & Hcls & Hwf1 & Hh).
     unfold write_file, bind_res. rewrite run_bind, Hrun. unfold spec_write_file. rewrite <- Hcls.
     destruct r1 as [h|e|]; cbn [class_of].
@@ -316,7 +317,7 @@ Section MFiles.
         split; [|split; [reflexivity|exact Hwf2]].
         rewrite Ha2. unfold spec_publish. destruct Hfile as (b0 & ->). rewrite Ht1. apply insert_insert.
       + rewrite run_bind. cbn [run bhandler].
-        rewrite (refine_write lg ft s1 hs1 h p [] 0 (b :: data) Hh ltac:(discriminate)). rewrite cursor_write_fresh. cbn [fst snd].
+        rewrite (refine_write lg ft s1 hs1 h p [] 0 (b :: data) Hh ltac:(discriminate) Hfit). rewrite cursor_write_fresh. cbn [fst snd].
         rewrite run_bind. cbn [run bhandler].
         assert (Hh2 : <[h := HMemWriter 0 p (b :: data) (Z.of_nat (length (b :: data)))]> hs1 !! h =
                       Some (HMemWriter 0 p (b :: data) (Z.of_nat (length (b :: data))))).
@@ -342,14 +343,14 @@ End MFiles.
 (** ** the two backends agree on a whole write session *)
 Theorem agree_write_file (hs hs' : list hstate) (lg lg' : list (nat * fscall)) (ft ft' : option (nat * nat))
     (s : gmap (list (list N)) memfile) (ps : physfs) (p : path) (data : bytes) :
-  wf s -> pgood ps -> abs s = pabs ps ->
+  wf s -> pgood ps -> abs s = pabs ps -> (Z.of_nat (length data) <= i64_max)%Z ->
   exists s' hs1 r ps' hs1' r',
     run bhandler (write_file mv p data) (mstore s hs lg ft) = (mstore s' hs1 lg ft, r) /\
     run bhandler (write_file pv p data) (pstore ps hs' lg' ft') = (pstore ps' hs1' lg' ft', r') /\
     abs s' = pabs ps' /\ wf s' /\ pgood ps' /\ class_of r = class_of r'.
 Proof.
-  intros Hwf Hg Hrel.
-  destruct (refine_write_file lg ft s hs p data Hwf) as (s' & hs1 & r & E1 & A1 & C1 & W1).
+  intros Hwf Hg Hrel Hfit.
+  destruct (refine_write_file lg ft s hs p data Hwf Hfit) as (s' & hs1 & r & E1 & A1 & C1 & W1).
   destruct (prefine_write_file lg' ft' ps hs' p data Hg) as (ps' & hs1' & r' & E2 & A2 & C2 & W2).
   exists s', hs1, r, ps', hs1', r'.
   split; [exact E1|]. split; [exact E2|]. split; [rewrite A1, A2, Hrel; reflexivity|].
@@ -425,8 +426,14 @@ Qed.
 Inductive hop5 :=
 | FExists (p : path) | FCreateDir (p : path) | FWriteFile (p : path) (data : bytes) | FRemoveFile (p : path) | FRemoveDir (p : path).
 
+(** the root is neither created nor removed; a write session fits into a buffer (fewer than 2^63 bytes: beyond that the
+    in-memory handle refuses the write, see [write_too_large]) *)
 Definition hop5_ok (o : hop5) : Prop :=
-  match o with FCreateDir p | FRemoveDir p => p <> [] | _ => True end.
+  match o with
+  | FCreateDir p | FRemoveDir p => p <> []
+  | FWriteFile _ data => (Z.of_nat (length data) <= i64_max)%Z
+  | _ => True
+  end.
 
 Definition hop5_prog (v : vfs) (o : hop5) : bprog (res bool) :=
   match o with
@@ -470,7 +477,7 @@ Proof.
         exists s1, ps1, hs, hs'. do 2 eexists. rewrite !run_bind, E1, E2. cbn [run].
         split; [reflexivity|]. split; [reflexivity|]. split; [apply class_ok_seen; now rewrite C|].
         split; [exact A|]. split; [exact W1|]. split; [exact W2|]. destruct (run_inodes_ok hs' lg' ft' ps ps1 hs' Hpwf Hino) as (J & _ & _). eapply J, E2.
-      - destruct (agree_write_file hs hs' lg lg' ft ft' s ps p data Hwf Hg Hrel) as (s1 & h1 & r & ps1 & h1' & r' & E1 & E2 & A & W1 & W2 & C).
+      - destruct (agree_write_file hs hs' lg lg' ft ft' s ps p data Hwf Hg Hrel Ho) as (s1 & h1 & r & ps1 & h1' & r' & E1 & E2 & A & W1 & W2 & C).
         exists s1, ps1, h1, h1'. do 2 eexists. rewrite !run_bind, E1, E2. cbn [run].
         split; [reflexivity|]. split; [reflexivity|]. split; [apply class_ok_seen; now rewrite C|]. auto.
       - destruct (agree_remove_file hs hs' lg lg' ft ft' s ps p Hwf Hpwf Hrel) as (s1 & r & ps1 & r' & E1 & E2 & A & W1 & W2 & C & _).
